@@ -320,18 +320,61 @@ func c14ValidSig(s string) bool {
 	if len(s) != 4 {
 		return false
 	}
-	upper := false
+	upper, odd := 0, 0
 	for i := 0; i < 4; i++ {
 		ch := s[i]
 		switch {
 		case ch >= 'G' && ch <= 'Z':
-			upper = true
+			upper++
 		case ch >= 'A' && ch <= 'F', ch >= '0' && ch <= '9', ch == '_':
+		case strings.IndexByte(c14SigOdd, ch) >= 0:
+			odd++
 		default:
 			return false
 		}
 	}
-	return upper // cannot be mistaken for lower-case hex digits in the log
+	if odd > 0 {
+		return upper >= 2 // two letters anchor the name when the log prints the odd bytes its own way
+	}
+	return upper >= 1 // cannot be mistaken for lower-case hex digits in the log
+}
+
+// c14SigOdd are signature bytes outside the printable range (a signature is four bytes; nothing
+// makes the firmware stick to letters). Line breaks are left out - the report is read line by
+// line - and so are bytes above 0x7f, which the JSON form of a case cannot carry.
+const c14SigOdd = "\x00\x01\x09\x1f\x7f"
+
+// c14SigSkeleton is the signature with every odd byte replaced by '?': how a log that refuses to
+// print such bytes raw may show it. Skeletons are unique within a case.
+func c14SigSkeleton(s string) string {
+	b := []byte(s)
+	for i, ch := range b {
+		if ch < 0x20 || ch > 0x7e {
+			b[i] = '?'
+		}
+	}
+	return string(b)
+}
+
+// c14Mentions reports whether a log line names the signature: its four bytes as they are, or - for
+// a signature with odd bytes - with anything at all printed in place of an odd byte.
+func c14Mentions(line, sig string) bool {
+	if strings.Contains(line, sig) {
+		return true
+	}
+	if c14SigSkeleton(sig) == sig {
+		return false
+	}
+	for i := 0; i+4 <= len(line); i++ {
+		ok := true
+		for k := 0; k < 4 && ok; k++ {
+			ok = sig[k] < 0x20 || sig[k] > 0x7e || line[i+k] == sig[k]
+		}
+		if ok {
+			return true
+		}
+	}
+	return false
 }
 
 // c14Build validates the case (a malformed replay file is a harness error),
@@ -979,7 +1022,7 @@ func c14Check(cp *c14Case, e *c14Env) (fail *vlib.Failure, herr error) {
 	mentioned := map[string]bool{}   // named on any log line (robust against re-wording of the report)
 	for _, line := range strings.Split(out, "\n") {
 		for sig := range allSigs {
-			if strings.Contains(line, sig) {
+			if c14Mentions(line, sig) {
 				mentioned[sig] = true
 				if strings.Contains(strings.ToLower(line), "checksum") {
 					reported[sig] = true
@@ -1096,6 +1139,15 @@ func c14Classify(c *c14Case, e *c14Env) (nontrivial bool, labels []string) {
 	win := c.winner()
 	if c.Reprobe != 0 && win >= 0 {
 		add("probed-again-after-the-winning-root-pointer-was-damaged-in-place")
+	}
+	for _, tb := range c.Tables {
+		if c14SigSkeleton(tb.Sig) != tb.Sig {
+			add("table-signature-with-a-byte-outside-the-printable-range")
+			if tb.Corrupt != 0 {
+				add("corrupted-table-whose-signature-has-a-byte-outside-the-printable-range")
+			}
+			break
+		}
 	}
 	switch {
 	case c.Win <= 1024:
@@ -1300,6 +1352,16 @@ func c14GenSig(t *rapid.T) string {
 	}
 	if s := string(b); s == "RSDT" || s == "XSDT" {
 		b[3] = '_' // the signatures of the root table itself are not used for listed tables
+	}
+	if rapid.IntRange(0, 7).Draw(t, "oddsig") == 0 {
+		// a byte outside the printable range at one position, letters G-Z at two others
+		at := rapid.IntRange(0, 3).Draw(t, "oddat")
+		for i := 0; i < 4; i++ {
+			if i != at && i != (at+3)%4 {
+				b[i] = c14SigFirst[rapid.IntRange(0, len(c14SigFirst)-1).Draw(t, "sl")]
+			}
+		}
+		b[at] = c14SigOdd[rapid.IntRange(0, len(c14SigOdd)-1).Draw(t, "oddbyte")]
 	}
 	return string(b)
 }
@@ -1544,12 +1606,38 @@ func c14Gen(t *rapid.T, st *vlib.Stats) c14Case {
 	} else if rapid.Bool().Draw(t, "tablesanyway") {
 		ntab = rapid.IntRange(0, 2).Draw(t, "ntables0")
 	}
-	sigs := rapid.SliceOfNDistinct(rapid.Custom(c14GenSig), ntab+2, ntab+2, func(s string) string { return s }).Draw(t, "sigs")
+	sigs := rapid.SliceOfNDistinct(rapid.Custom(c14GenSig), ntab+2, ntab+2, c14SigSkeleton).Draw(t, "sigs")
 	// rarely a root table with dozens or hundreds of entries: the extra tables are small, packed
 	// and get their contents from their index (no further draws)
 	nbulk := 0
 	if haveReal && rapid.IntRange(0, 39).Draw(t, "bulktables") == 0 {
 		nbulk = rapid.SampledFrom([]int{24, 54, 55, 118, 119, 120, 121, 190, 247, 300}).Draw(t, "nbulk")
+	}
+	// a signature with an odd byte must not be confusable - however the log prints that byte - with
+	// another name of the image; where it is, the odd byte gives way to a digit
+	for i := range sigs {
+		if c14SigSkeleton(sigs[i]) == sigs[i] {
+			continue
+		}
+		clash := nbulk > 0 || c14Mentions("RSDT XSDT FACP DSDT RSD PTR", sigs[i])
+		for j := range sigs {
+			clash = clash || (j != i && c14Mentions(sigs[j], sigs[i]))
+		}
+		for d := byte('0'); clash && d <= '9'; d++ {
+			b := []byte(sigs[i])
+			for k := range b {
+				if b[k] < 0x20 || b[k] > 0x7e {
+					b[k] = d
+				}
+			}
+			dup := false
+			for j := range sigs {
+				dup = dup || (j != i && sigs[j] == string(b))
+			}
+			if !dup {
+				sigs[i], clash = string(b), false
+			}
+		}
 	}
 	drawn := ntab
 	ntab += nbulk
